@@ -165,10 +165,10 @@ func parseSpec(s string) (e SExpr, err error) {
 type specErr string
 
 func (p *sparser) fail(f string, a ...interface{}) { panic(specErr(fmt.Sprintf(f, a...))) }
-func (p *sparser) cur() tok                       { return p.t[p.p] }
-func (p *sparser) isOp(o string) bool             { return p.t[p.p].k == "op" && p.t[p.p].v == o }
-func (p *sparser) isID(o string) bool             { return p.t[p.p].k == "id" && p.t[p.p].v == o }
-func (p *sparser) next() tok                      { t := p.t[p.p]; p.p++; return t }
+func (p *sparser) cur() tok                        { return p.t[p.p] }
+func (p *sparser) isOp(o string) bool              { return p.t[p.p].k == "op" && p.t[p.p].v == o }
+func (p *sparser) isID(o string) bool              { return p.t[p.p].k == "id" && p.t[p.p].v == o }
+func (p *sparser) next() tok                       { t := p.t[p.p]; p.p++; return t }
 func (p *sparser) expectOp(o string) {
 	if !p.isOp(o) {
 		p.fail("expected %q, found %q", o, p.cur().v)
